@@ -320,6 +320,7 @@ impl World {
 pub fn env_json<S>(vm: &Vm<S>, w: &World) -> Value {
     json!({
         "gas": gas_json(vm.gas_costs()),
+        "default_gas": vm.gas_costs() == &GasCosts::default(),
         "tx_offset": vm.tx_offset(),
         "max_inputs": vm.max_inputs(),
         "chain_id": u64::from(vm.chain_id()).to_string(),
@@ -391,6 +392,45 @@ where
     S: InterpreterStorage,
     S::DataError: std::fmt::Debug,
 {
+    record_run_with(out, run, vm, w, checked, extra, max_steps, None)
+}
+
+pub fn outputs_json<S>(vm: &Vm<S>) -> Value {
+    use fuel_tx::field::Outputs;
+    use fuel_tx::Output;
+    let tx = vm.transaction();
+    let base = vm.tx_offset();
+    Value::Array(tx.outputs().iter().enumerate().map(|(i, o)| {
+        let kind = match o { Output::Coin { .. } => "Coin", Output::Contract(_) => "Contract", Output::Change { .. } => "Change",
+                             Output::Variable { .. } => "Variable", Output::ContractCreated { .. } => "ContractCreated" };
+        json!({"kind": kind, "off": base + tx.outputs_offset_at(i).unwrap_or(0),
+               "to": o.to().map(|t| hx(t)).unwrap_or_default(), "amount": o.amount().unwrap_or(0).to_string(),
+               "asset": o.asset_id().map(|a| hx(a)).unwrap_or_default()})
+    }).collect())
+}
+
+pub fn balances_json<S>(vm: &Vm<S>) -> Value {
+    let ib = vm.initial_balances();
+    let mut m = Map::new();
+    for (a, v) in ib.non_retryable.iter() { m.insert(hx(a), Value::String(v.to_string())); }
+    let retry: Word = ib.retryable.map(|r| r.into()).unwrap_or(0);
+    json!({"nonret": Value::Object(m), "retry": retry.to_string()})
+}
+
+/// like record_run; `post` adds driver-specific observations of the final state (e.g. a storage dump) to the Final event
+pub fn record_run_with<S>(out: &mut Out, run: u64, vm: &mut Vm<S>, w: &World, checked: Checked<Script>, extra: Value, max_steps: u64,
+                          post: Option<&dyn Fn(&Vm<S>) -> Value>) -> u64
+where
+    S: InterpreterStorage,
+    S::DataError: std::fmt::Debug,
+{
+    let fee_info = {
+        use fuel_tx::field::{MaxFeeLimit, Tip};
+        use fuel_tx::Chargeable;
+        let tx = checked.transaction();
+        json!({"min_gas": tx.min_gas(w.params.gas_costs(), w.params.fee_params()).to_string(), "max_fee": tx.max_fee_limit().to_string(),
+               "tip": tx.tip().to_string(), "factor": w.params.fee_params().gas_price_factor().to_string(), "price": w.gas_price.to_string()})
+    };
     let ready = match checked.into_ready(w.gas_price, w.params.gas_costs(), w.params.fee_params(), Some(w.block_height.into())) {
         Ok(r) => r,
         Err(e) => { out.ev(json!({"ev": "NotReady", "run": run, "err": format!("{e:?}")})); return 0; }
@@ -407,6 +447,7 @@ where
         "ev": "Init", "run": run, "kind": "script", "env": env_json(vm, w),
         "regs": regs_json(&s0.regs), "stack": hx(&s0.stack), "hp": s0.hp,
         "tx": hx(vm.transaction().to_bytes()), "early": early,
+        "outs": outputs_json(vm), "bal0": balances_json(vm), "fee": fee_info,
     }), extra));
     let mut i = 0u64;
     if early {
@@ -439,6 +480,8 @@ where
         "receipts_root": hx(vm.transaction().receipts_root()),
         "rc_all": Value::Array(rc.iter().map(|r| json!(hx(r.to_bytes()))).collect()),
         "nrc": rc.len(),
+        "outputs": outputs_json(vm),
+        "post": post.map(|f| f(vm)).unwrap_or(Value::Null),
     }), out_of_state(&state)));
     i
 }
